@@ -13,7 +13,7 @@ def run(tier, seed):
     try:
         from contracts import def_c
         from pyvc.verify import verify
-        res.report = verify(def_c.targets(), timeout_s=20 if tier == 'quick' else 120)
+        res.report = verify(def_c.targets() + def_c.targets_vias(), timeout_s=20 if tier == 'quick' else 120)
     except ImportError:
         res.report = None
     res.bounded = [def_drv.part(tier, seed)]
